@@ -374,6 +374,38 @@ def _same_pt(p, q):
     return True
 
 
+class STRtree:
+    """STRtree-lite: stores the geometries it is given; queries are answered by brute force with the predicates above.
+    Without a predicate every stored geometry is a candidate (the real tree returns a superset by envelope, callers
+    re-filter); `dwithin` with the 1e-15 tolerance the library uses is answered as closed intersection."""
+
+    def __init__(self, geoms, node_capacity=10):
+        self.geometries = list(geoms)
+
+    def __len__(self):
+        return len(self.geometries)
+
+    def query(self, geometry, predicate=None, distance=None):
+        many = isinstance(geometry, (list, tuple, _np.ndarray))
+        inputs = list(geometry) if many else [geometry]
+        pairs = []
+        for i, g in enumerate(inputs):
+            for j, t in enumerate(self.geometries):
+                if predicate is None:
+                    hit = True
+                elif predicate in ("intersects", "dwithin"):
+                    if predicate == "dwithin" and distance is not None and distance > 1e-9:
+                        raise Unsupported("STRtree-lite: dwithin with a non-negligible distance")
+                    hit = bool(t.intersects(g))
+                else:
+                    raise Unsupported(f"STRtree-lite: predicate {predicate}")
+                if hit:
+                    pairs.append((i, j))
+        if many:
+            return _np.array([[a for a, _ in pairs], [b for _, b in pairs]], dtype=int).reshape(2, len(pairs))
+        return _np.array([b for _, b in pairs], dtype=int)
+
+
 # ---- module-like namespaces ----------------------------------------------------------------
 class _NS:
     def __init__(self, **k):
